@@ -7,7 +7,7 @@ import argparse, glob, json, os, re, shutil, subprocess, sys, tempfile, time
 from concurrent.futures import ThreadPoolExecutor
 
 VERIF = os.path.dirname(os.path.dirname(os.path.abspath(__file__)))
-REVERT = {"D1": "C01", "D2": "C12", "D3": "C04", "D4": "C11", "D5": "C10", "D6": "C17", "D7": "C20", "D8": "C04", "D11": "C14", "D13": "C04", "D14": "C03", "D15": "C14", "D16": "C20"}
+REVERT = {"D1": "C01", "D2": "C12", "D3": "C04", "D4": "C11", "D5": "C10", "D6": "C17", "D7": "C20", "D8": "C04", "D11": "C14", "D13": "C04", "D14": "C03", "D15": "C14", "D16": "C20", "D17": "C04"}
 
 
 def target(name):
@@ -32,7 +32,7 @@ def one(patch, tier, pinned):
             p = subprocess.run(["/venv/bin/python", os.path.join(VERIF, "tools", "pinned_suite.py"), "--tree", tree], stdout=subprocess.PIPE, text=True,
                                env=dict(os.environ, OMP_NUM_THREADS="2"))
             pin = "pass" if "missing=0" in p.stdout else "FAILS pinned tests"
-        env = dict(os.environ, VERIF_REPO=tree, VERIF_OUT=os.path.join(tmp, "out"), VERIF_WORKERS="4")
+        env = dict(os.environ, VERIF_REPO=tree, VERIF_OUT=os.path.join(tmp, "out"), VERIF_WORKERS="8")
         p = subprocess.run([os.path.join(VERIF, "run_check.py"), check, "--tier", tier], env=env, stdout=subprocess.PIPE, stderr=subprocess.STDOUT, text=True)
         lines = [ln for ln in p.stdout.splitlines() if ln.startswith("[") or ln.startswith("regression replay fails")]
         verdict = "CAUGHT" if p.returncode == 1 and "VIOLATION" in p.stdout else ("harness-error" if p.returncode == 2 else "missed")
